@@ -84,11 +84,16 @@ theorem C27_conservation (cfg : Cfg) (progs : List (List Op)) (sched : List Nat)
     pointer computed by `parsec_arena_allocate_device_private` is aligned, lies behind the chunk
     header, and `count` elements fit before the end of the `chunkSize` bytes requested from the
     allocator. -/
-theorem C27_aligned_sized (L : Layout) (k : Nat) (hk : k ≤ 64) (ha : L.align = 2 ^ k) (chunk count : Nat)
+theorem C27_aligned_sized (L : Layout) (k : Nat) (ha : L.align = 2 ^ k) (chunk count : Nat)
     (h1 : chunk + L.hdr + (2 ^ k - 1) < 2 ^ 64)
     (h2 : L.elem * count + L.align + L.hdr + (2 ^ k - 1) < 2 ^ 64) :
     dataAddr L chunk % L.align = 0 ∧ chunk + L.hdr ≤ dataAddr L chunk ∧
     dataAddr L chunk + L.elem * count ≤ chunk + chunkSize L count := by
+  have hk : k ≤ 64 := by
+    rcases Nat.lt_or_ge 64 k with h | h
+    · have := Nat.pow_le_pow_right (n := 2) (by decide) h
+      omega
+    · exact h
   unfold dataAddr chunkSize
   rw [ha] at h2 ⊢
   have s1 := alignUp_spec (chunk + L.hdr) k hk h1
@@ -98,6 +103,34 @@ theorem C27_aligned_sized (L : Layout) (k : Nat) (hk : k ≤ 64) (ha : L.align =
   generalize 2 ^ k = a at *
   refine ⟨s1.1, s1.2.1, ?_⟩
   omega
+
+/-- every alignment accepted by `parsec_arena_construct_ex` is a power of two 2^k with k ≥ 1 (so the
+    hypothesis of `C27_aligned_sized` holds for every constructed arena), the element size is not 0 and
+    the two limits are the memory limits divided by the element size, capped at INT32_MAX = "no limit" -/
+theorem C27_construct_pow2 (elem align maxMem maxCached mu mr : Nat)
+    (h : construct elem align maxMem maxCached = some (mu, mr)) :
+    (∃ k, 1 ≤ k ∧ align = 2 ^ k) ∧ 0 < elem ∧ mu = min (maxMem / elem) INF ∧ mr = min (maxCached / elem) INF := by
+  unfold construct at h
+  split at h
+  · simp at h
+  · rename_i h1
+    split at h
+    · simp at h
+    · rename_i h2
+      have h3 : ¬ align ≤ 1 := fun x => h1 (Or.inl x)
+      have h4 : align &&& (align - 1) = 0 := by
+        by_cases e : align &&& (align - 1) = 0
+        · exact e
+        · exact absurd (Or.inr e) h1
+      obtain ⟨k, hk⟩ := pow2_of_and align align (Nat.le_refl _) (by omega) h4
+      refine ⟨⟨k, ?_, hk⟩, by omega, ?_, ?_⟩
+      · cases k with
+        | zero => simp at hk; omega
+        | succ k => omega
+      · simp only [Option.some.injEq, Prod.mk.injEq] at h
+        rw [← h.1]; split <;> omega
+      · simp only [Option.some.injEq, Prod.mk.injEq] at h
+        rw [← h.2]; split <;> omega
 
 theorem mem_le_sum (l : List Nat) (a : Nat) (h : a ∈ l) : a ≤ l.sum := by
   induction l with
